@@ -66,6 +66,8 @@ type StepFacts struct {
 	Out       map[string]any // "stage.output" -> value
 	Stage     map[string]bool
 	Why       string
+	// At is the decision number at which each "stage.output" was produced (observed facts only).
+	At map[string]int64
 	// loops
 	Items   []any
 	ItemRes []*Facts
@@ -763,7 +765,7 @@ func (f *Facts) naturalPlugin(s *ir.Step, sf *StepFacts) {
 		return
 	}
 	input := in.V.(map[string]any)
-	full, err := pluginDefaults(input)
+	full, err := PluginDefaults(input)
 	if err != nil {
 		f.fail(s.ID + ".input: " + err.Error())
 		return
@@ -804,8 +806,8 @@ func (f *Facts) naturalPlugin(s *ir.Step, sf *StepFacts) {
 	}
 }
 
-// pluginDefaults fills the scripted plugin's input defaults and checks types.
-func pluginDefaults(in map[string]any) (map[string]any, error) {
+// PluginDefaults fills the scripted plugin's input defaults and checks types.
+func PluginDefaults(in map[string]any) (map[string]any, error) {
 	out := map[string]any{}
 	get := func(k string) (any, bool) { v, ok := in[k]; return v, ok && v != nil }
 	if v, ok := get("a"); ok {
